@@ -113,15 +113,15 @@ int vnacal_make_correlated_parameter(vnacal_t *vcp, int other,
 	    /*
 	     * Validate that the frequencies are non-negative and ascending.
 	     */
-	    if (sigma_frequency_vector[0] < 0.0) {
+	    if (!(sigma_frequency_vector[0] >= 0.0)) {
 		_vnacal_error(vcp, VNAERR_USAGE,
 			"vnacal_make_correlated_parameter: "
 			"frequencies must be nonnegative");
 		goto error;
 	    }
 	    for (int i = 1; i < sigma_frequencies; ++i) {
-		if (sigma_frequency_vector[i] <=
-			sigma_frequency_vector[i - 1]) {
+		if (!(sigma_frequency_vector[i] >
+			sigma_frequency_vector[i - 1])) {
 		    _vnacal_error(vcp, VNAERR_USAGE,
 			    "vnacal_make_correlated_parameter: "
 			    "frequencies must be ascending");
@@ -168,7 +168,7 @@ int vnacal_make_correlated_parameter(vnacal_t *vcp, int other,
      * Validate and copy sigma_vector.
      */
     for (int findex = 0; findex < sigma_frequencies; ++findex) {
-	if (sigma_vector[findex] <= 0.0) {
+	if (!(sigma_vector[findex] > 0.0)) {
 	    _vnacal_error(vcp, VNAERR_USAGE,
 		    "vnacal_make_correlated_parameter: "
 		    "sigma values must be positive");
